@@ -259,7 +259,7 @@ def U3_frontier(ctx):
         if op in WRITE_OPS:
             r = receiver_field(ctx.facts, b, t) or ''
             if r.endswith('ExecutionFrontier.executed'):
-                w.add(b['fn'].split('::')[-1])
+                w |= ctx.facts.owners(b['fn'])
     ctx.ob('U3', 'ExecutionFrontier.executed', 'who-sets-executed', w == {'publish'}, f'writers {sorted(w)}')
     # next_validation_idx: limit = min(executing_idx, frontier)
     h = ctx.method('SchedulerContext', 'next_validation_idx')
@@ -331,7 +331,7 @@ def O_run_once(ctx):
             for st in bl['stmts']:
                 s = json.dumps(st)
                 if 'scheduler::Scheduler.started' in s:
-                    users.add(b['fn'].split('::')[-1])
+                    users |= facts.owners(b['fn'])
     ctx.ob('O3', 'Scheduler.started', 'who-touches-started', users == {'run_once'}, f'functions referencing Scheduler.started: {sorted(users)}',
            what='any other writer could re-arm the scheduler')
     bf = ctx.method('scheduler::Scheduler<DB>', 'build')
@@ -446,8 +446,8 @@ def W_wait(ctx):
     ctx.ob('W1', f, 'park-straight-from-true-predicate', n_park >= 1 and not bad, '; '.join(f'{w} at {site(f, e)}' for w, e in bad[:3]), site=f.loc(f.b['lo']),
            what='the unpark token closes the check/park window only if nothing between the last predicate evaluation and park can consume it and park is reached only when the predicate said blocked')
     # WHO park / unpark
-    parkers = {b['fn'].split('::')[-1] for b, bl, t in facts.callers_of(lambda c: c.startswith('std::thread::park')) if not facts.is_test(b['fn'], b)}
-    unparkers = {b['fn'].split('::')[-1] for b, bl, t in facts.callers_of(lambda c: c.endswith('Thread::unpark')) if not facts.is_test(b['fn'], b)}
+    parkers = set().union(*[facts.owners(b['fn']) for b, bl, t in facts.callers_of(lambda c: c.startswith('std::thread::park')) if not facts.is_test(b['fn'], b)] or [set()])
+    unparkers = set().union(*[facts.owners(b['fn']) for b, bl, t in facts.callers_of(lambda c: c.endswith('Thread::unpark')) if not facts.is_test(b['fn'], b)] or [set()])
     ctx.ob('W1', 'std::thread::park*', 'who-parks', parkers == {'wait_while'}, f'{sorted(parkers)}',
            what='any other park on a coordinator thread can swallow the notification token')
     ctx.ob('W1', 'Thread::unpark', 'who-unparks', unparkers == {'notify'}, f'{sorted(unparkers)}')
@@ -581,9 +581,9 @@ def W_producers(ctx):
                 fn = facts.fn(b)
         txt = json.dumps(b['blocks'])
         if 'scheduler::Scheduler.abort_reason' in txt:
-            wreason.add(b['fn'].split('::')[-1])
+            wreason |= facts.owners(b['fn'])
         if '"scheduler::Scheduler.abort"' in txt:
-            wflag.add(b['fn'].split('::')[-1])
+            wflag |= facts.owners(b['fn'])
     ctx.ob('E3', 'Scheduler.abort_reason', 'who-touches-abort-reason', wreason <= {'abort', 'post_execute', 'take_result_and_state', 'build'} and 'abort' in wreason, f'{sorted(wreason)}',
            what='only abort() records the reason (first cause wins); post_execute reads it')
     ctx.ob('L5', 'Scheduler.abort', 'who-touches-abort-flag', wflag <= {'cancel', 'is_aborted', 'take_result_and_state', 'build'} and 'cancel' in wflag, f'{sorted(wflag)}')
@@ -673,7 +673,7 @@ def WHO_tables(ctx):
         for b, bl, t in facts.callers_of(lambda c: norm_callee(c).endswith(pat) or callee_matches(c, pat)):
             if facts.is_test(b['fn'], b):
                 continue
-            callers.add(re.sub(r'::\{closure#\d+\}', '', b['fn']).split('::')[-1])
+            callers |= facts.owners(b['fn'])
         ctx.ob('WHO', pat, 'who-may-call', bool(callers) and callers <= allowed, f'callers {sorted(callers)}; allowed {sorted(allowed)}', what=why)
     # tx_results writers: stores (assignments through the guard) and takes
     w = collections.defaultdict(set)
@@ -689,17 +689,17 @@ def WHO_tables(ctx):
         for p in ps:
             for e in p.events:
                 if e.kind == 'assign' and e.d['place'][0] == 'call' and mentions_field(e.d['place'], 'Scheduler.tx_results'):
-                    w[b['fn'].split('::')[-1]].add('store')
+                    [w[o].add('store') for o in facts.owners(b['fn'])]
                 if e.kind == 'call' and norm_callee(e.d['callee']).endswith('Option::take') and mentions_field(e.d['args'][0], 'Scheduler.tx_results'):
-                    w[b['fn'].split('::')[-1]].add('take')
+                    [w[o].add('take') for o in facts.owners(b['fn'])]
                 if e.kind == 'call' and callee_matches(e.d['callee'], 'mem::take') and mentions_field(e.d['args'][0], 'Scheduler.tx_results'):
-                    w[b['fn'].split('::')[-1]].add('take-field')
+                    [w[o].add('take-field') for o in facts.owners(b['fn'])]
     exp = {'execute_task': {'store', 'take-field'}, 'run_commit_loop': {'take'}}
     ctx.ob('WHO', 'Scheduler.tx_results', 'who-writes-results', dict(w) == exp, f'{ {k: sorted(v) for k, v in w.items()} }',
            what='a transaction result is stored by its own attempt and consumed exactly by ordered commit')
     rw = set()
     for b in facts.production():
         if '"scheduler::Scheduler.results"' in json.dumps(b['blocks']):
-            rw.add(b['fn'].split('::')[-1])
+            rw |= facts.owners(b['fn'])
     ctx.ob('WHO', 'Scheduler.results', 'who-touches-outcomes', rw <= {'install_commit_loop_result', 'replay_uncommitted_suffix', 'take_result_and_state', 'build'} and 'install_commit_loop_result' in rw, f'{sorted(rw)}',
            what='outcomes are written by the commit-result installation and by sequential replay only')
